@@ -262,8 +262,16 @@ def check_medium_property(ctx, rule: str) -> None:
         r.reactants = [_Met(rid[3:])] if as_reactant else []
         r.products = [] if as_reactant else [_Met(rid[3:])]
         rxns.append(r)
-    model = ModelLP(rxns, {"EX_a": 1.0})
+    # boundary reactions that are no exchanges (a sink that can supply its metabolite, a demand): not part of the
+    # medium - neither listed by the getter nor touched by the setter
+    sink, demand = RxnLP("SK_s", -7.0, 1000.0), RxnLP("DM_t", 0.0, 1000.0)
+    for r in (sink, demand):
+        r.boundary = True
+        r.reactants, r.products = [_Met(r.id[3:])], []
+    model = ModelLP(rxns + [sink, demand], {"EX_a": 1.0})
     model.exchanges = list(rxns)
+    model.boundary = list(rxns) + [sink, demand]
+    model.sinks, model.demands = [sink], [demand]
     it = Interp(prog, NATIVE, [], {}, globals_={})
     medium = {rid: v for rid, (_, _, v) in MED.items() if v is not None}
     # the model stand-in has a modelled `medium` of its own; evaluate the real property functions on it
@@ -286,6 +294,9 @@ def check_medium_property(ctx, rule: str) -> None:
         got = (r.lower_bound, r.upper_bound)
         if tuple(map(float, got)) != tuple(map(float, want)):
             problems.append(f"{rid} ({'met <=>' if as_reactant else '<=> met'}, bounds {lb:g}..{ub:g}, {why}) ends with bounds {got}, expected {want}")
+    for r, b0 in ((sink, (-7.0, 1000.0)), (demand, (0.0, 1000.0))):
+        if (r.lower_bound, r.upper_bound) != b0:
+            problems.append(f"{r.id} (a boundary reaction that is no exchange) ends with bounds {(r.lower_bound, r.upper_bound)}: the medium covers the exchange reactions only")
     want_back = {rid: float(v) for rid, (_, _, v) in MED.items() if v is not None and v > 0}
     if isinstance(back, dict):
         back = {k: float(x) for k, x in back.items()}
